@@ -94,8 +94,68 @@ def runTrace (v : Variant) : Stat → JUnit → List Event → Nat → Json
     | none => jobj [("crash_at", jnat i), ("stat", encStat st'), ("cases", encSuite j.testCases), ("written", .null)]
     | some j' => runTrace v st' j' rest (i + 1)
 
+def decFmt (j : Json) : Except String Fmt := do
+  match ← asStr j with
+  | "vcr" => return .vcr
+  | "har" => return .har
+  | s => .error s!"bad format {s}"
+
+def encChunk : Chunk → Json
+  | .preamble s => jobj [("preamble", match s with | some n => jnat n | none => .null)]
+  | .entry i => jnat i
+
+def decChunk (j : Json) : Except String Chunk :=
+  match j with
+  | .num _ _ => do return .entry (← asNat j)
+  | j => do return .preamble (← asOpt asNat (optField j "preamble"))
+
+def decEv (j : Json) : Except String Ev := asOpt (asList asNat) j
+
+def decAct (j : Json) : Except String Act :=
+  match j with
+  | .str _ => pure .main
+  | j => do return .work (← asNat j)
+
+def decCrash (j : Json) : Except String (Option (Nat × Nat)) :=
+  match j with
+  | .null => pure none
+  | j => do
+    match ← asList asNat j with
+    | [k, p] => return some (k, p)
+    | _ => .error "bad crash"
+
 def handle : Handler := fun op a => do
   match op with
+  | "multi" =>
+    let fs ← asList decFmt (← field a "fmts")
+    let qs ← asOpt (asList asNat) (optField a "queues")
+    let cfg : Nat → HCfg := match qs with
+      | none => cfgOf fs
+      | some qs => fun i => ⟨fs.getD i .vcr, qs.getD i i⟩
+    let n := fs.length
+    let seed ← asOpt asNat (optField a "seed")
+    let evs ← asList decEv (← field a "events")
+    let crash ← decCrash (optField a "crash")
+    let sched ← asList decAct (← field a "sched")
+    let s := run cfg n sched (Sys.init (mainProgram n seed evs crash))
+    let idx := List.range n
+    return jobj [("writers", .arr (idx.map fun i => jobj [("out", .arr ((s.ws i).out.map encChunk)), ("done", .bool (s.ws i).done),
+                                                           ("queued", jnat (s.queues (cfg i).queue).length)])),
+                 ("pc_left", jnat s.pc.length),
+                 ("expected", .arr (idx.map fun i => .arr ((expectedFile (cfg i).fmt seed (deliveredTo i evs crash)).map encChunk))),
+                 ("own_queues", .bool (idx.all fun i => idx.all fun j => i == j || (cfg i).queue != (cfg j).queue))]
+  | "judge_report" =>
+    let f ← decFmt (← field a "fmt")
+    let seed ← asOpt asNat (optField a "seed")
+    let delivered ← asList decEv (← field a "delivered")
+    let observed ← asList decChunk (← field a "observed")
+    return .bool (reportOK f seed delivered observed)
+  | "init_handlers" =>
+    let fmts ← asList asStr (← field a "formats")
+    let rs := fmts.filterMap fun s => if s == "junit" then some Report.junit else if s == "vcr" then some Report.vcr
+                                      else if s == "har" then some Report.har else none
+    return .arr ((initCassettes rs).map fun f => .str (match f with | .vcr => "vcr" | .har => "har"))
+  | "command" => return encStr (commandRepr (← asList decStr (← field a "argv")))
   | "table" => return .arr (escapeTable.map fun (c, r) => .arr [jnat c, jnat r])
   | "dq" =>
     let s ← asOpt decStr (optField a "s")
@@ -121,7 +181,10 @@ def handle : Handler := fun op a => do
     let v ← decVariant (← field a "variant")
     let p ← asBool (← field a "preserve")
     let recs ← asList (asList decEntry) (← field a "recorders")
-    let text := renderCassette v p (← decStr (← field a "command")) (← decStr (← field a "version"))
+    let command ← match optField a "argv" with
+      | .null => decStr (← field a "command")
+      | j => do pure (commandRepr (← asList decStr j))
+    let text := renderCassette v p command (← decStr (← field a "version"))
       (← decStr (← field a "seed")) recs
     return jobj [("text", encStr text), ("raises", .bool (recs.any fun r => r.any (writerRaises v p)))]
   | "parse_doc" =>
